@@ -229,7 +229,7 @@ def lp_models(draw, want=None):
         hi = ub if ub is not None else lo + 6
         xhat[nm] = draw(st.integers(int(np.ceil(lo * 2)), int(np.floor(hi * 2)))) / 2.0
     sense = draw(st.sampled_from(["minimize", "maximize"]))
-    c = {nm: draw(st.sampled_from([0] + COEFS)) for nm in names}
+    c = {nm: draw(st.sampled_from([0, 0, 0] + COEFS)) for nm in names}
     if not any(c.values()):
         c[names[0]] = 1
     c0 = draw(st.sampled_from([0, 0, 5, -2.5, 1]))
@@ -308,7 +308,8 @@ def lp_models(draw, want=None):
 
     def add_sign_row():
         """the bare spelling `x >= 0` / `x <= 0` (a single variable against the literal 0)"""
-        nm = draw(st.sampled_from(names))
+        zero_cost = [k for k in names if c[k] == 0]
+        nm = draw(st.sampled_from(zero_cost if zero_cost and draw(st.booleans()) else names))   # often a variable the objective does not mention
         sns = ">=" if xhat[nm] >= 0 else "<="
         forms.append("var>=0")
         cons.append({"kind": "scalar", "lhs": _var_recipe(nm, env), "sense": sns, "rhs": 0, "written": "direct",
